@@ -124,4 +124,31 @@ META = {
         note=("Partial: dijkstra minimality, filter_nodes and connected are checked against the abstract graph on every run (Graph.dist / induced / connected) but not yet proved in Lean. "
               "Vector indexing is modelled with getD under the well-formedness predicate WF, which the constructors are proved to establish. Model mirrors /repo after the F8 fix."),
         technique=_T),
+    "C02": dict(
+        text=("Lean 4 theorems about the model Rt of des::runtime::Runtime (dispatch_event with the limit tested on next_time before fetching, dispatch_all, add_event with the start-time check, "
+              "finish) running over the calendar-queue model: it is observationally equal to the same loop over the abstract event set for every (n,t) (C02.runtime_refines_spec, a generic simulation "
+              "lifted through the loop from the C01 refinement); handled timestamps are non-decreasing and >= the start time, the clock is the timestamp of the last dispatched event, every "
+              "successfully scheduled event is handled exactly once with exactly its timestamp or is returned by finish (each_event_exactly_once, finish_returns_pending), add_event at/after now "
+              "always succeeds and before now is always rejected without effect, in every reachable state incl. non-zero start time (add_outcome). Tied to the code by replaying generated sessions."),
+        design_ref="DESIGN.md §5 C02",
+        note=("Trusted: as C01 plus the harness's scripted Application. The model mirrors /repo after the fixes for F2 (add_event before now with start_time>0) and F9/F10 (limit tested before fetching). "
+              "Termination of dispatch_all for self-rescheduling programs is not claimed (fuel-indexed loop; theorems hold for every fuel)."),
+        technique=_T),
+    "C10": dict(
+        text=("Lean 4 theorems on the runtime model Rt: any sequence of dispatch_n_events / dispatch_events_until steps followed by dispatch_all to completion yields exactly the observations of one "
+              "uninterrupted dispatch_all, for every program, (n,t), start time and cut incl. cuts inside a tie group (C10.stepped_eq_run, via: every limited run is a prefix of the unlimited run ending in "
+              "exactly one of its states, and unlimited runs compose); dispatch_n_events dispatches exactly the next n events or all (dispatchN_exact, step_stops_at_bound), dispatch_events_until exactly the "
+              "events up to the first later than t (dispatchUntil_exact); a paused runtime reports the last dispatched time and the number of pending events, and accepts exactly the adds at/after that time."),
+        design_ref="DESIGN.md §5 C10",
+        note=("Trusted: as C02. Model mirrors /repo after the F9/F10 repair (next_time peek instead of fetch + re-insert). Sessions with external adds between steps are covered by the tie and by "
+              "paused_add_ge_now_accepted, not by stepped_eq_run (a different history than the uninterrupted run)."),
+        technique=_T),
+    "C11": dict(
+        text=("Lean 4 theorems on the runtime model Rt: the events dispatched under a limit L are exactly the longest prefix of the unlimited run's events that L admits (C11.limited_handled_eq_admitted_prefix, "
+              "for any And/Or tree, any program, (n,t), start time); for EventCount(n) that is the first min(n, available) events, for SimTime(T) the events up to the first later than T; the stopped runtime is "
+              "exactly in a state of the unlimited run (limited_run_is_prefix_state), so nothing is executed beyond the stop and nothing lost: scheduled = dispatched + what finish() returns, with "
+              "timestamps (nothing_lost); the end time is the last dispatched timestamp; Builder::max_itr/max_time/limit compose with Or."),
+        design_ref="DESIGN.md §5 C11",
+        note="Trusted: as C02. RuntimeLimit::applies is a 5-arm transcription validated by the tie on nested And/Or trees.",
+        technique=_T),
 }
